@@ -71,6 +71,10 @@ type hOp struct {
 type hBlock struct {
 	Dt  int64 `json:"dt"` // seconds since the previous block
 	Ops []hOp `json:"ops"`
+	// restart driver: at the boundary BEFORE this block a node is restarted as a NEW OPERATING-SYSTEM PROCESS: a child
+	// process opens a copy of the continuous node's database as of that boundary and executes this and all following
+	// blocks (restart_proc.go).  Ignored on the first block (nothing is committed before it).
+	Proc bool `json:"proc,omitempty"`
 }
 
 type hInput struct {
@@ -79,6 +83,9 @@ type hInput struct {
 	// address of deployer B at nonce K.  Replay only (probe of an account type that does not implement
 	// EthAccountI); the generator never sets it.
 	BaseAt []hBaseAt `json:"base_at,omitempty"`
+	// restart driver: fee-market regime of the chain (x/feemarket genesis parameters and the consensus Block.MaxGas,
+	// feeregime.go); nil = the defaults of chain.go (base fee 10^9, Block.MaxGas 40,000,000)
+	Fee *bhFeeMarket `json:"fee,omitempty"`
 }
 
 type hBaseAt struct {
@@ -742,20 +749,30 @@ func runQuery(a *app.Haqq, ctx sdk.Context, q qReq) (out string) {
 			out = fmt.Sprintf("panic: %v", r)
 		}
 	}()
-	h := a.GRPCQueryRouter().Route(q.Path)
-	if h == nil {
-		return "no-route"
-	}
 	bz, err := proto.Marshal(q.Req)
 	if err != nil {
 		return "marshal: " + err.Error()
 	}
+	return runQueryRaw(a, ctx, q.Path, bz)
+}
+
+// runQueryRaw: the same with the request already encoded.
+func runQueryRaw(a *app.Haqq, ctx sdk.Context, path string, bz []byte) (out string) {
+	defer func() {
+		if r := recover(); r != nil {
+			out = fmt.Sprintf("panic: %v", r)
+		}
+	}()
+	h := a.GRPCQueryRouter().Route(path)
+	if h == nil {
+		return "no-route"
+	}
 	cctx, _ := ctx.CacheContext()
-	res, err := h(cctx, abci.RequestQuery{Data: bz, Path: q.Path})
+	res, err := h(cctx, abci.RequestQuery{Data: bz, Path: path})
 	if err != nil {
 		return "err: " + trunc(err.Error(), 200)
 	}
-	if q.Path == "/evmos.epochs.v1.Query/EpochInfos" {
+	if path == "/evmos.epochs.v1.Query/EpochInfos" {
 		// the K8 field is reported separately
 		var r epochstypes.QueryEpochsInfoResponse
 		if err := proto.Unmarshal(res.Value, &r); err == nil {
